@@ -6,7 +6,7 @@
    commit) leaves either the state the update started from or one of the states
    on the trace; volatile state (UTXO cache, counters, open write transaction,
    the unrecoverably_reorged flag) is lost. *)
-From OrdV Require Import Base.Prelude Index.Sched Proofs.Sched_proofs.
+From OrdV Require Import Base.Prelude Generated Index.Sched Proofs.Sched_proofs.
 
 (* Every durable state on the trace of an update (for any reachable start, any
    parameters, any node chain) is the state of some fully committed height of
@@ -38,6 +38,24 @@ Theorem C13_crash_before_first_commit : forall fuel p nd st,
   update fuel p nd st [] = update fuel p nd st [].
 Proof. reflexivity. Qed.
 
+(* Tie of the model's commit sequence to the source: the number of atomic steps the model puts on
+   the trace for one Updater::commit (+ Reorg::update_savepoints when a savepoint is due) and for one
+   rollback equals the number of `.commit()` calls the translator counts in those function bodies
+   (Generated.v).  A change that adds, removes or moves a commit on that path changes the count and
+   breaks this lemma. *)
+Theorem C13_commit_sequence_matches_source : forall p nd st working pending,
+  len (snd (commit p nd st working pending)) =
+    if is_sp_required p (last_sp (cur st)) (headers nd) (len working)
+    then SCHED_COMMITS_IN_UPDATER_COMMIT + SCHED_COMMITS_IN_UPDATE_SAVEPOINTS
+    else SCHED_COMMITS_IN_UPDATER_COMMIT.
+Proof.
+  intros p nd st working pending. unfold commit.
+  destruct (is_sp_required p (last_sp (cur st)) (headers nd) (len working)); reflexivity.
+Qed.
+
+Theorem C13_rollback_is_one_commit : SCHED_COMMITS_IN_HANDLE_REORG = 1.
+Proof. reflexivity. Qed.
+
 (* Non-vacuity: an update with 4 atomic commits per block on its trace. *)
 Example C13_nonvacuous :
   let p := mkP 10 2 5000 true in
@@ -46,3 +64,4 @@ Example C13_nonvacuous :
 Proof. vm_compute. split; reflexivity. Qed.
 
 Print Assumptions C13_crash_consistent_and_resumable.
+Print Assumptions C13_commit_sequence_matches_source.
